@@ -1,3 +1,4 @@
+pub mod child;
 pub mod dump;
 pub mod r#gen;
 pub mod model;
